@@ -576,8 +576,54 @@ class ExecutorSummary:
             return callee.get("name")
         return None
 
+    def _flag_term(self, e, env, depth=0):
+        """normal form of a flag test: ("flags",) | ("enum", name) | ("test", name) for `flags & name` (possibly `!= 0`, possibly through a
+        one-expression helper function whose parameters are bound to the arguments) | None"""
+        e = strip(e)
+        k = e.get("k")
+        if depth > 4:
+            return None
+        if k == "DeclRefExpr":
+            if e.get("did") in env:
+                return env[e["did"]]
+            if e.get("did") == self.flagparam:
+                return ("flags",)
+            if e.get("dk") == "EnumConstant":
+                return ("enum", e["name"])
+            return None
+        if k == "IntegerLiteral":
+            return ("int", int(e["val"]))
+        if k in ("CXXStaticCastExpr", "CStyleCastExpr", "CXXFunctionalCastExpr", "ImplicitCastExpr") and len(kids(e)) == 1:
+            return self._flag_term(kids(e)[0], env, depth)
+        if k == "BinaryOperator" and e.get("op") == "&":
+            a, b = [self._flag_term(x, env, depth) for x in kids(e)]
+            for p, q in ((a, b), (b, a)):
+                if p == ("flags",) and q is not None and q[0] == "enum":
+                    return ("test", q[1])
+            return None
+        if k == "BinaryOperator" and e.get("op") in ("!=", "=="):
+            a, b = [self._flag_term(x, env, depth) for x in kids(e)]
+            for p, q in ((a, b), (b, a)):
+                if p is not None and p[0] == "test" and ((e["op"] == "!=" and q == ("int", 0)) or (e["op"] == "==" and q == ("enum", p[1]))):
+                    return p           # (flags & X) != 0  /  (flags & X) == X for a single enumerator
+            return None
+        if k in ("CallExpr",):
+            nm = tbf.callee_name(e)
+            args = tbf.call_args(e)
+            cands = [g for g in self.facts.functions if g["name"] == nm and not g.get("cls") and not g.get("inst") and tbf.body(g) is not None and len(g["params"]) == len(args)]
+            if len(cands) == 1:
+                st = [x for x in kids(tbf.body(cands[0])) if x.get("k") != "NullStmt"]
+                if len(st) == 1 and st[0].get("k") == "ReturnStmt" and kids(st[0]):
+                    env2 = {p_["did"]: self._flag_term(a_, env, depth + 1) for p_, a_ in zip(cands[0]["params"], args)}
+                    if all(v is not None for v in env2.values()):
+                        return self._flag_term(kids(st[0])[0], env2, depth + 1)
+        return None
+
     def _flags_of_cond(self, cond, fm):
         """returns a normalised description of an `flags & Enum` condition, or None"""
+        ft = self._flag_term(cond, {})
+        if ft is not None and ft[0] == "test":
+            return ft[1]
         if cond.get("k") == "BinaryOperator" and cond.get("op") == "&":
             a, b = [strip(x) for x in kids(cond)]
             for p, q in ((a, b), (b, a)):
